@@ -58,6 +58,7 @@ func c08Profile(ac bool) func(c *sim.RunCtx) {
 		var corruptions []corruption
 		opInvoke := map[int]int{} // goroutine -> invoke seq of its current op
 		opRecs := map[int]int{}   // goroutine -> number of block writes recorded when its current op was invoked
+		opHist := map[int][]int{} // goroutine -> invoke seqs of all its operations
 
 		// qmax returns the newest quarantined incarnation as of seq.
 		qmax := func(w *storeWorld, seq int) int {
@@ -108,7 +109,17 @@ func c08Profile(ac bool) func(c *sim.RunCtx) {
 				if n := len(w.e.blockGets); n > 0 {
 					bg := w.e.blockGets[n-1]
 					if bg.Seq == w.s.Steps-1 || bg.Seq == w.s.Steps {
-						if inv, ok := opInvoke[bg.G]; ok {
+						// the operation the read belongs to: the reader's latest
+						// operation invoked before the read (its current operation may
+						// already be the next one, invoked at the very step at which
+						// the previous one read the block and returned)
+						inv, ok := -1, false
+						for _, x := range opHist[bg.G] {
+							if x < bg.Seq {
+								inv, ok = x, true
+							}
+						}
+						if ok {
 							if q := qmax(w, inv); bg.Block.ID <= q {
 								c.Fail("served-from-quarantined-block", "an operation invoked at step %d read block incarnation #%d although corruption had been detected in incarnation #%d before", inv, bg.Block.ID, q)
 								return
@@ -248,6 +259,7 @@ func c08Profile(ac bool) func(c *sim.RunCtx) {
 		w := runStoreForwardHook(c, opts, func(w *storeWorld, op *storeOp) {
 			opInvoke[w.s.Cur().ID] = w.s.Steps
 			opRecs[w.s.Cur().ID] = len(w.e.putRecs)
+			opHist[w.s.Cur().ID] = append(opHist[w.s.Cur().ID], w.s.Steps)
 		})
 		if w == nil || c.Failed() {
 			return
